@@ -16,9 +16,13 @@ From Verif Require Import Lib.Text Lib.Decimal Lib.Fixed Lib.Dyadic.
 Import ListNotations.
 Local Open Scope string_scope.
 
-Record quirks := { q_blank_dropped : bool }.
-Definition spec_q : quirks := {| q_blank_dropped := false |}.
-Definition impl_q : quirks := {| q_blank_dropped := true |}.
+(* q_century_from_first_obs = true reproduces rinex2_obs taking the century of a two-digit epoch year from TIME OF FIRST OBS;
+   false = the specification: RINEX 2.11 rule 80-99 -> 19yy, 00-79 -> 20yy *)
+Record quirks := { q_blank_dropped : bool; q_century_from_first_obs : bool }.
+Definition spec_q : quirks := {| q_blank_dropped := false; q_century_from_first_obs := false |}.
+Definition cent_q : quirks := {| q_blank_dropped := false; q_century_from_first_obs := true |}.
+Definition impl_q : quirks := {| q_blank_dropped := true; q_century_from_first_obs := true |}.
+Definition year2 (yy : Z) : Z := if (80 <=? yy)%Z then (1900 + yy)%Z else (2000 + yy)%Z.
 
 (* ------------------------------------------------------------------------------------------ small string functions *)
 Definition is_alpha (c : ascii) : bool :=
@@ -377,7 +381,8 @@ Definition v2_epoch (q : quirks) (rate : option Q) (obs_fields : list fieldspec)
            | Some tf =>
                let first_year := take 4 tf in
                (* a TIME OF LAST OBS in another year only produces a log message (midgard's log.fatal does not stop) *)
-               match parse_int (take 2 first_year ++ zfill 2 year) with
+               match (if q_century_from_first_obs q then parse_int (take 2 first_year ++ zfill 2 year)
+                      else match parse_int year with Some yy => Some (year2 yy) | None => None end) with
                     | Some y =>
                         match time_of vals y, parse_int flag, float_nan (lookup "rcv_clk_offset" vals),
                               parse_int (lookup "num_sat" vals) with
